@@ -146,7 +146,12 @@ def exposures(o, scn):
             byidx = [int(lst[i]) for i in range(n)]
         except Exception as e:
             byidx = "exc:" + type(e).__name__
-        out.append({"len": n, "size": int(lst.size), "index": byidx, "iter": [int(x) for x in lst]})
+        try:
+            it = [int(x) for x in lst]
+        except IndexError:
+            # len() promises more elements than the list holds: the iteration stops where the element models end
+            it = "exc:IndexError"
+        out.append({"len": n, "size": int(lst.size), "index": byidx, "iter": it, "models": len(lst.get_model().field_l)})
     return out
 
 
